@@ -13,12 +13,116 @@ from . import c17_util as U
 PID = 'C17'
 DRIVERS = ['queue']
 MODULE = 'PymtlVerif.Props.C17'
+GEN_MODULE = 'PymtlVerif.Props.C17Gen'
 THEOREMS = ['PV.C17.' + t for t in [
   'ring_inv', 'ring_refines', 'one_entry_refines', 'vring_refines', 'cl_refines', 'refines_trace',
   'nothing_lost', 'fifo_order', 'never_exceeds', 'next_out_exists', 'next_out', 'count_exact', 'rdy_laws',
   'pipe_enq_when_full', 'bypass_deq_when_empty', 'num_free',
   'bypass2_fifo_order', 'bypass2_count_deq', 'bypass2_enq_law_fails',
 ]]
+# generated-from-source = model, for every capacity n (Gen/QueueGen.lean is regenerated from $PV_REPO or /repo by pregen below)
+GEN_THEOREMS = ['PV.C17Gen.' + t for t in [
+  'gen_Basic_RegisterFile_rdata_eq', 'gen_Basic_RegisterFile_regs_next_eq', 'gen_Basic_Mux_out_eq',
+  'gen_Basic_RegEn_out_next_eq', 'gen_Basic_Reg_out_next_eq', 'gen_Basic_RegRst_out_next_eq',
+  'gen_Q_NormalQueueCtrlRTL_enq_rdy_eq', 'gen_Q_NormalQueueCtrlRTL_deq_rdy_eq',
+  'gen_Q_NormalQueueCtrlRTL_enq_xfer_eq', 'gen_Q_NormalQueueCtrlRTL_deq_xfer_eq',
+  'gen_Q_NormalQueueCtrlRTL_head_next_eq', 'gen_Q_NormalQueueCtrlRTL_tail_next_eq',
+  'gen_Q_NormalQueueCtrlRTL_count_next_eq', 'gen_Q_NormalQueueCtrlRTL_wires', 'gen_Q_NormalQueueCtrlRTL_widths',
+  'gen_Q_NormalQueueCtrlRTL_side', 'gen_Q_NormalQueueCtrlRTL_out', 'gen_Q_PipeQueueCtrlRTL_deq_rdy_eq',
+  'gen_Q_PipeQueueCtrlRTL_enq_rdy_eq', 'gen_Q_PipeQueueCtrlRTL_enq_xfer_eq', 'gen_Q_PipeQueueCtrlRTL_deq_xfer_eq',
+  'gen_Q_PipeQueueCtrlRTL_head_next_eq', 'gen_Q_PipeQueueCtrlRTL_tail_next_eq',
+  'gen_Q_PipeQueueCtrlRTL_count_next_eq', 'gen_Q_PipeQueueCtrlRTL_wires', 'gen_Q_PipeQueueCtrlRTL_widths',
+  'gen_Q_PipeQueueCtrlRTL_side', 'gen_Q_PipeQueueCtrlRTL_out', 'gen_Q_BypassQueueCtrlRTL_enq_rdy_eq',
+  'gen_Q_BypassQueueCtrlRTL_deq_rdy_eq', 'gen_Q_BypassQueueCtrlRTL_mux_sel_eq',
+  'gen_Q_BypassQueueCtrlRTL_enq_xfer_eq', 'gen_Q_BypassQueueCtrlRTL_deq_xfer_eq',
+  'gen_Q_BypassQueueCtrlRTL_head_next_eq', 'gen_Q_BypassQueueCtrlRTL_tail_next_eq',
+  'gen_Q_BypassQueueCtrlRTL_count_next_eq', 'gen_Q_BypassQueueCtrlRTL_wires', 'gen_Q_BypassQueueCtrlRTL_widths',
+  'gen_Q_BypassQueueCtrlRTL_side', 'gen_Q_BypassQueueCtrlRTL_out', 'gen_S_NormalQueueCtrlRTL_recv_rdy_eq',
+  'gen_S_NormalQueueCtrlRTL_send_val_eq', 'gen_S_NormalQueueCtrlRTL_recv_xfer_eq',
+  'gen_S_NormalQueueCtrlRTL_send_xfer_eq', 'gen_S_NormalQueueCtrlRTL_head_next_eq',
+  'gen_S_NormalQueueCtrlRTL_tail_next_eq', 'gen_S_NormalQueueCtrlRTL_count_next_eq',
+  'gen_S_NormalQueueCtrlRTL_wires', 'gen_S_NormalQueueCtrlRTL_widths', 'gen_S_NormalQueueCtrlRTL_side',
+  'gen_S_NormalQueueCtrlRTL_out', 'gen_S_PipeQueueCtrlRTL_send_val_eq', 'gen_S_PipeQueueCtrlRTL_recv_rdy_eq',
+  'gen_S_PipeQueueCtrlRTL_recv_xfer_eq', 'gen_S_PipeQueueCtrlRTL_send_xfer_eq',
+  'gen_S_PipeQueueCtrlRTL_head_next_eq', 'gen_S_PipeQueueCtrlRTL_tail_next_eq',
+  'gen_S_PipeQueueCtrlRTL_count_next_eq', 'gen_S_PipeQueueCtrlRTL_wires', 'gen_S_PipeQueueCtrlRTL_widths',
+  'gen_S_PipeQueueCtrlRTL_side', 'gen_S_PipeQueueCtrlRTL_out', 'gen_S_BypassQueueCtrlRTL_recv_rdy_eq',
+  'gen_S_BypassQueueCtrlRTL_send_val_eq', 'gen_S_BypassQueueCtrlRTL_mux_sel_eq',
+  'gen_S_BypassQueueCtrlRTL_recv_xfer_eq', 'gen_S_BypassQueueCtrlRTL_send_xfer_eq',
+  'gen_S_BypassQueueCtrlRTL_head_next_eq', 'gen_S_BypassQueueCtrlRTL_tail_next_eq',
+  'gen_S_BypassQueueCtrlRTL_count_next_eq', 'gen_S_BypassQueueCtrlRTL_wires', 'gen_S_BypassQueueCtrlRTL_widths',
+  'gen_S_BypassQueueCtrlRTL_side', 'gen_S_BypassQueueCtrlRTL_out', 'gen_Q_NormalQueueDpathRTL_queue__rdata_0_eq',
+  'gen_Q_NormalQueueDpathRTL_queue__regs_next_eq', 'gen_Q_NormalQueueDpathRTL_wires',
+  'gen_Q_NormalQueueDpathRTL_widths', 'gen_Q_NormalQueueDpathRTL_side', 'gen_Q_NormalQueueDpathRTL_out',
+  'gen_Q_BypassQueueDpathRTL_queue__rdata_0_eq', 'gen_Q_BypassQueueDpathRTL_queue__regs_next_eq',
+  'gen_Q_BypassQueueDpathRTL_mux__out_eq', 'gen_Q_BypassQueueDpathRTL_wires', 'gen_Q_BypassQueueDpathRTL_widths',
+  'gen_Q_BypassQueueDpathRTL_side', 'gen_Q_BypassQueueDpathRTL_out', 'gen_S_NormalQueueDpathRTL_rf__rdata_0_eq',
+  'gen_S_NormalQueueDpathRTL_rf__regs_next_eq', 'gen_S_NormalQueueDpathRTL_wires',
+  'gen_S_NormalQueueDpathRTL_widths', 'gen_S_NormalQueueDpathRTL_side', 'gen_S_NormalQueueDpathRTL_out',
+  'gen_S_BypassQueueDpathRTL_rf__rdata_0_eq', 'gen_S_BypassQueueDpathRTL_rf__regs_next_eq',
+  'gen_S_BypassQueueDpathRTL_mux__out_eq', 'gen_S_BypassQueueDpathRTL_wires', 'gen_S_BypassQueueDpathRTL_widths',
+  'gen_S_BypassQueueDpathRTL_side', 'gen_S_BypassQueueDpathRTL_out', 'gen_Q_NormalQueue1EntryRTL_enq_rdy_eq',
+  'gen_Q_NormalQueue1EntryRTL_deq_rdy_eq', 'gen_Q_NormalQueue1EntryRTL_full_next_eq',
+  'gen_Q_NormalQueue1EntryRTL_entry_next_eq', 'gen_Q_NormalQueue1EntryRTL_wires',
+  'gen_Q_NormalQueue1EntryRTL_widths', 'gen_Q_NormalQueue1EntryRTL_side', 'gen_Q_NormalQueue1EntryRTL_out',
+  'gen_Q_PipeQueue1EntryRTL_enq_rdy_eq', 'gen_Q_PipeQueue1EntryRTL_deq_rdy_eq',
+  'gen_Q_PipeQueue1EntryRTL_full_next_eq', 'gen_Q_PipeQueue1EntryRTL_entry_next_eq',
+  'gen_Q_PipeQueue1EntryRTL_wires', 'gen_Q_PipeQueue1EntryRTL_widths', 'gen_Q_PipeQueue1EntryRTL_side',
+  'gen_Q_PipeQueue1EntryRTL_out', 'gen_Q_BypassQueue1EntryRTL_enq_rdy_eq', 'gen_Q_BypassQueue1EntryRTL_deq_rdy_eq',
+  'gen_Q_BypassQueue1EntryRTL_full_next_eq', 'gen_Q_BypassQueue1EntryRTL_entry_next_eq',
+  'gen_Q_BypassQueue1EntryRTL_bypass_mux__out_eq', 'gen_Q_BypassQueue1EntryRTL_wires',
+  'gen_Q_BypassQueue1EntryRTL_widths', 'gen_Q_BypassQueue1EntryRTL_side', 'gen_Q_BypassQueue1EntryRTL_out',
+  'gen_S_NormalQueue1EntryRTL_recv_rdy_eq', 'gen_S_NormalQueue1EntryRTL_full_next_eq',
+  'gen_S_NormalQueue1EntryRTL_entry_next_eq', 'gen_S_NormalQueue1EntryRTL_wires',
+  'gen_S_NormalQueue1EntryRTL_widths', 'gen_S_NormalQueue1EntryRTL_side', 'gen_S_NormalQueue1EntryRTL_out',
+  'gen_S_PipeQueue1EntryRTL_recv_rdy_eq', 'gen_S_PipeQueue1EntryRTL_full_next_eq',
+  'gen_S_PipeQueue1EntryRTL_entry_next_eq', 'gen_S_PipeQueue1EntryRTL_wires', 'gen_S_PipeQueue1EntryRTL_widths',
+  'gen_S_PipeQueue1EntryRTL_side', 'gen_S_PipeQueue1EntryRTL_out', 'gen_S_BypassQueue1EntryRTL_send_val_eq',
+  'gen_S_BypassQueue1EntryRTL_recv_rdy_eq', 'gen_S_BypassQueue1EntryRTL_full_next_eq',
+  'gen_S_BypassQueue1EntryRTL_entry_next_eq', 'gen_S_BypassQueue1EntryRTL_bypass_mux__out_eq',
+  'gen_S_BypassQueue1EntryRTL_wires', 'gen_S_BypassQueue1EntryRTL_widths', 'gen_S_BypassQueue1EntryRTL_side',
+  'gen_S_BypassQueue1EntryRTL_out', 'gen_ER_PipeQueue1RTL_deq_en_eq', 'gen_ER_PipeQueue1RTL_enq_rdy_eq',
+  'gen_ER_PipeQueue1RTL_full__in__eq', 'gen_ER_PipeQueue1RTL_buffer__out_next_eq',
+  'gen_ER_PipeQueue1RTL_full__out_next_eq', 'gen_ER_PipeQueue1RTL_wires', 'gen_ER_PipeQueue1RTL_widths',
+  'gen_ER_PipeQueue1RTL_side', 'gen_ER_PipeQueue1RTL_out', 'gen_ER_BypassQueue1RTL_enq_rdy_eq',
+  'gen_ER_BypassQueue1RTL_deq_en_eq', 'gen_ER_BypassQueue1RTL_buffer__en_eq', 'gen_ER_BypassQueue1RTL_full__in__eq',
+  'gen_ER_BypassQueue1RTL_buffer__out_next_eq', 'gen_ER_BypassQueue1RTL_full__out_next_eq',
+  'gen_ER_BypassQueue1RTL_byp_mux__out_eq', 'gen_ER_BypassQueue1RTL_wires', 'gen_ER_BypassQueue1RTL_widths',
+  'gen_ER_BypassQueue1RTL_side', 'gen_ER_BypassQueue1RTL_out', 'gen_ER_NormalQueue1RTL_enq_rdy_eq',
+  'gen_ER_NormalQueue1RTL_deq_en_eq', 'gen_ER_NormalQueue1RTL_full__in__eq',
+  'gen_ER_NormalQueue1RTL_buffer__out_next_eq', 'gen_ER_NormalQueue1RTL_full__out_next_eq',
+  'gen_ER_NormalQueue1RTL_wires', 'gen_ER_NormalQueue1RTL_widths', 'gen_ER_NormalQueue1RTL_side',
+  'gen_ER_NormalQueue1RTL_out', 'gen_VR_PipeQueue1RTL_full_next_eq', 'gen_VR_PipeQueue1RTL_enq_rdy_eq',
+  'gen_VR_PipeQueue1RTL_buffer__en_eq', 'gen_VR_PipeQueue1RTL_next_full_eq',
+  'gen_VR_PipeQueue1RTL_buffer__out_next_eq', 'gen_VR_PipeQueue1RTL_wires', 'gen_VR_PipeQueue1RTL_widths',
+  'gen_VR_PipeQueue1RTL_side', 'gen_VR_PipeQueue1RTL_out', 'gen_VR_BypassQueue1RTL_full_next_eq',
+  'gen_VR_BypassQueue1RTL_enq_rdy_eq', 'gen_VR_BypassQueue1RTL_buffer__en_eq', 'gen_VR_BypassQueue1RTL_next_full_eq',
+  'gen_VR_BypassQueue1RTL_deq_val_eq', 'gen_VR_BypassQueue1RTL_buffer__out_next_eq',
+  'gen_VR_BypassQueue1RTL_byp_mux__out_eq', 'gen_VR_BypassQueue1RTL_wires', 'gen_VR_BypassQueue1RTL_widths',
+  'gen_VR_BypassQueue1RTL_side', 'gen_VR_BypassQueue1RTL_out', 'gen_VR_NormalQueue1RTL_full_next_eq',
+  'gen_VR_NormalQueue1RTL_enq_rdy_eq', 'gen_VR_NormalQueue1RTL_buffer__en_eq', 'gen_VR_NormalQueue1RTL_next_full_eq',
+  'gen_VR_NormalQueue1RTL_buffer__out_next_eq', 'gen_VR_NormalQueue1RTL_wires', 'gen_VR_NormalQueue1RTL_widths',
+  'gen_VR_NormalQueue1RTL_side', 'gen_VR_NormalQueue1RTL_out', 'gen_VR_NormalQueueRTLCtrl_do_enq_eq',
+  'gen_VR_NormalQueueRTLCtrl_do_deq_eq', 'gen_VR_NormalQueueRTLCtrl_wen_eq',
+  'gen_VR_NormalQueueRTLCtrl_enq_ptr_inc_eq', 'gen_VR_NormalQueueRTLCtrl_deq_ptr_inc_eq',
+  'gen_VR_NormalQueueRTLCtrl_enq_ptr_next_eq', 'gen_VR_NormalQueueRTLCtrl_deq_ptr_next_eq',
+  'gen_VR_NormalQueueRTLCtrl_num_free_entries_eq', 'gen_VR_NormalQueueRTLCtrl_full_next_cycle_eq',
+  'gen_VR_NormalQueueRTLCtrl_empty_eq', 'gen_VR_NormalQueueRTLCtrl_enq_rdy_eq',
+  'gen_VR_NormalQueueRTLCtrl_deq_val_eq', 'gen_VR_NormalQueueRTLCtrl_waddr_eq', 'gen_VR_NormalQueueRTLCtrl_raddr_eq',
+  'gen_VR_NormalQueueRTLCtrl_seq_deq_ptr_next_eq', 'gen_VR_NormalQueueRTLCtrl_seq_enq_ptr_next_eq',
+  'gen_VR_NormalQueueRTLCtrl_full_next_eq', 'gen_VR_NormalQueueRTLCtrl_wires', 'gen_VR_NormalQueueRTLCtrl_widths',
+  'gen_VR_NormalQueueRTLCtrl_side', 'gen_VR_NormalQueueRTLCtrl_out', 'gen_VR_NormalQueueRTLDpath_queue__rdata_0_eq',
+  'gen_VR_NormalQueueRTLDpath_queue__regs_next_eq', 'gen_VR_NormalQueueRTLDpath_wires',
+  'gen_VR_NormalQueueRTLDpath_widths', 'gen_VR_NormalQueueRTLDpath_side', 'gen_VR_NormalQueueRTLDpath_out',
+  'gen_Q_NormalQueueRTL_struct', 'gen_Q_NormalQueueRTL_dispatch', 'gen_Q_PipeQueueRTL_struct',
+  'gen_Q_PipeQueueRTL_dispatch', 'gen_Q_BypassQueueRTL_struct', 'gen_Q_BypassQueueRTL_dispatch',
+  'gen_S_NormalQueueRTL_struct', 'gen_S_NormalQueueRTL_dispatch', 'gen_S_PipeQueueRTL_struct',
+  'gen_S_PipeQueueRTL_dispatch', 'gen_S_BypassQueueRTL_struct', 'gen_S_BypassQueueRTL_dispatch',
+  'gen_ER_BypassQueue2RTL_struct', 'gen_VR_NormalQueueRTL_struct',
+]]
+THEOREM_MODULE = {**{t: MODULE for t in THEOREMS}, **{t: GEN_MODULE for t in GEN_THEOREMS}}
+THEOREMS = THEOREMS + GEN_THEOREMS
+MODULE = [MODULE, GEN_MODULE]
 TRUSTED = [
   'Model/Queue.lean follows the update blocks of the five queue files (registers, wrap tests, Bits widths, reset branches) by hand',
   'RegisterFile / Mux / Reg / RegEn / RegRst are modelled inline (a function Nat -> msg for the register file)',
@@ -26,6 +130,47 @@ TRUSTED = [
   'CL queues: the same-cycle order of the producer and consumer blocks is taken from the real scheduler run; the model hard-codes the order the constraints imply',
   'valrdy_queues.py is unimportable as shipped (InValRdyIfc/OutValRdyIfc missing from pymtl3.stdlib.ifcs); the check supplies the two interfaces for the import only',
 ]
+TRUSTED += [
+  'translator tie for the RTL queues: tools/py2lean_queue.py renders, with Python `ast`, every @update / @update_ff block, every '
+  '`//= lambda:` connection, the constant attributes (last_idx, num_entries), the declared widths and the connect / `//=` wiring of '
+  'the ctrl, dpath and one-entry classes of queues/queues.py, stream/queues.py, queues/enrdy_queues.py, queues/valrdy_queues.py and '
+  'of basic_rtl Reg / RegEn / RegRst / Mux / RegisterFile as those instantiate them into Gen/QueueGen.lean, with the capacity as the Lean '
+  'variable n and the entry type as a type variable (widths clog2 n / clog2 (n+1) stay symbolic; Bits + and - are rendered modulo 2^w; '
+  'subset: `@=`, `<<=`, if/elif/else merged into conditional expressions, `for i in range(<static>)` unrolled, `x if c else y`, & | ~, '
+  '+ -, comparisons, zext, T(k), port lists indexed by a signal, the register list indexed by a signal as function application / update; '
+  'a combinational signal assigned on some paths only reads an explicit latch field). Resolved statically: which file a class lives in, '
+  'the interface field tables (EnqIfcRTL/DeqIfcRTL, stream Recv/SendIfcRTL, enrdy Recv/SendIfcRTL, InValRdyIfc/OutValRdyIfc), which '
+  'constructor parameter is the capacity / the entry type, other parameters from the instantiation or their defaults. Anything else makes '
+  'the translator fail = broken obligation; a generated definition without a theorem in Props/C17Gen.lean is a broken obligation too. '
+  'Props/C17Gen.lean gives per class the valuation of the Python signals by terms of Model/Queue.lean (the hand-written NAMING tie, '
+  'cross-checked by the simulation comparison that reads the same ports) and proves FOR ALL n, all states and inputs that it satisfies '
+  'every generated equation and register update, every connection, the widths and (for n >= 2) the no-exception side conditions; '
+  'wrapper classes (NormalQueueRTL ..., BypassQueue2RTL): the `num_entries == 1` dispatch is proved equal to runCls\'s, the instance and '
+  'connection tables are compared with the expected tables. Still hand-transcribed only: the CL queues (cl_queues.py), the composition '
+  'of ctrl + dpath (+ of q1/q2 in BypassQueue2RTL) into one step function along the connection tables, the harness-side Dut adapters.',
+]
+
+def pregen(ck):
+  """translator-based tie: regenerate lean/PymtlVerif/Gen/QueueGen.lean from the queue sources of $PV_REPO (default /repo) --
+  written only if its content changed; Props/C17Gen.lean then re-proves generated = model for every capacity"""
+  import importlib.util, os, re
+  path = os.path.join(leanio.VERIF, 'tools', 'py2lean_queue.py')
+  spec = importlib.util.spec_from_file_location('py2lean_queue', path)
+  mod = importlib.util.module_from_spec(spec); spec.loader.exec_module(mod)
+  notes = mod.pregen()
+  # every generated signal definition must have its theorem
+  gen = open(mod.DEFAULT_OUT).read()
+  thm = open(os.path.join(leanio.LEAN_DIR, 'PymtlVerif', 'Props', 'C17Gen.lean')).read()
+  ns, missing = None, []
+  for line in gen.split('\n'):
+    m = re.match(r'namespace (\S+)', line)
+    if m: ns = m.group(1)
+    m = re.match(r'def (\S+)', line)
+    if m and ns and ns != 'PV.QueueGen' and not re.fullmatch(r'widths|side|wires|c_\w+', m.group(1)):
+      if f'QueueGen.{ns}.{m.group(1)}' not in thm: missing.append(f'{ns}.{m.group(1)}')
+  if missing: raise RuntimeError('generated definitions without a theorem in Props/C17Gen.lean: ' + ', '.join(missing[:12]))
+  return notes
+
 ASSUMPTIONS = [
   'producers/consumers on en/rdy interfaces are protocol-legal (en only when rdy, judged on the same cycle\'s rdy after the inputs it depends on are applied); val/rdy sides are unconstrained',
   'capacities >= 1 (valrdy NormalQueueRTL: >= 2, it cannot be constructed with 1)',
